@@ -688,6 +688,15 @@ def xray_checks(ctx, lean, oracle, name, c, op, R, case):
                 return False
         else:
             ctx.count("xray-detector-does-not-cover")
+        # (b') the TRUE covering hypothesis of C04_xray_mass_covered: every boxcar [Px, Px + width] on the detector [0, ny]
+        _, _, Pxg = linops_ref.xray2d_weights(c, ang)
+        wdt = linops_ref.xray2d_width(c, ang)
+        if float(np.min(np.abs(Pxg - np.round(Pxg)))) >= 1e-9 and bool(np.all(Pxg >= 0) and np.all(Pxg + wdt <= ny)):
+            ctx.count("xray-covered-by-geometry")
+            if not common.close(y_real[v].sum(), x.sum(), npx):
+                ctx.disagree("linops.XRayTransform2D.mass_covered", dict(case, view=v), float(y_real[v].sum()), float(x.sum()), oracle=oracle,
+                             note="every pixel's boxcar lies on the detector but the view does not conserve mass")
+                return False
         # (c) index / weight formulas
         rw = lean.m.call("xrayw", x0=fs2b(x0), dx=fs2b(dx), nx=sh, angle=f2b(ang), y0=f2b(y0))
         margin = b2f(rw["margin"])
@@ -766,21 +775,35 @@ def xray3d_checks(ctx, lean, oracle, name, c, op, R, case, tol):
                 ctx.disagree("linops.XRayTransform3D.weights", dict(case, view=v), _summ(got), _summ(want), oracle=oracle,
                              note="weights of the four detector pixels differ from the documented footprint split (Lean x3Overlap)")
                 return False
-    # (c) mass conservation per view when every footprint [le, le + 1/2]^2 lies on the detector
+    # (c) the four-pixel scatter of the Lean model (xray3Project / xray3Matrix) on the footprints of each view, and mass
+    #     conservation per view when the detector covers every footprint (hypothesis of C04_xray3d_mass, decided by the model)
     x = np.abs(common.dyadic(ctx.rng, tuple(sh), bits=3, scale=2.0)) + 0.125
     y = np.asarray(op(opgrid.unflat(x.ravel(), op.input_shape, np.float64)))
+    nd = _prod(det)
     for v in range(le.shape[0]):
         covered = bool(np.all(le[v] >= 0) and np.all(le[v][:, 0] + 0.5 <= det[0]) and np.all(le[v][:, 1] + 0.5 <= det[1]))
+        if exact_or_far and _prod(sh) <= 48:
+            r = lean.m.call("xray3", le0=fs2b(le[v][:, 0]), le1=fs2b(le[v][:, 1]), w=f2b(0.5), d0=det[0], d1=det[1], x=fs2b(x.ravel()))
+            ctx.count("xray3d-scatter-model")
+            Mv, Dv = _mat(r["mat"]), _mat(r["doc"])
+            if not _close(Mv, Dv, 1e-12):
+                raise common.Infra("model: xray3Project and xray3Matrix differ")
+            if r["covered"] != covered:
+                raise common.Infra("model and adapter disagree on the covering hypothesis")
+            if not _close(R[v * nd:(v + 1) * nd], Mv, tol):
+                ctx.disagree("linops.XRayTransform3D.scatter", dict(case, view=v), _summ(R[v * nd:(v + 1) * nd]), _summ(Mv), oracle=oracle,
+                             note="four-pixel scatter of the Lean model on the documented footprints differs from the real projector")
+                return False
+            if covered and not common.close(b2f(r["mass_out"]), b2f(r["mass_in"]), x.size):
+                raise common.Infra("model: covered view does not conserve mass (contradicts C04_xray3d_mass)")
         if not covered:
             ctx.count("xray3d-detector-does-not-cover")
             continue
         ctx.count("xray3d-mass-hypothesis-holds")
         if not common.close(float(y[v].sum()), float(x.sum()), 1000 * x.size):
-            kid = None
-            ctx.disagree("linops.XRayTransform3D.mass", dict(case, view=v), float(y[v].sum()), float(x.sum()), oracle=oracle, known_id=kid,
+            ctx.disagree("linops.XRayTransform3D.mass", dict(case, view=v), float(y[v].sum()), float(x.sum()), oracle=oracle,
                          note="the detector covers every voxel footprint but the view does not conserve the total mass")
-            if kid is None or not ctx.is_known(kid):
-                return False
+            return False
     return True
 
 
